@@ -17,6 +17,7 @@ REL = "miasm/expression/expression_helper.py"
 LEVEL_TEXT = ("Dispatch/recursion completeness against the Expr classes' fields, polarity of the constraints attached to "
               "each arm of a conditional (through the constraint classes' operator), product/union shape for n-ary nodes. "
               "Necessary clauses; no enumeration is run.")
+LEVEL_TEXT += ' Also: the container of alternatives is a plain set (no set-API method redefined), the alternative is the plain (constraints, value) pair.'
 ASSUMPTIONS = ["CPython ast", "TOK_EQUAL denotes equality with zero in CondConstraint.operator"]
 
 
